@@ -41,6 +41,28 @@ def ops_for(rng: random.Random, c, nmax: int) -> list[list[dict]]:
     return seqs
 
 
+def near_limit_cases(rng: random.Random) -> list[dict]:
+    """Empty dies whose aspect ratio is just above / just below each limit r = p/q (by about 5e-4), and empty dies that are
+    slightly taller than wide (1 < h/w < 2/r: their halves exceed the limit and must be split again) -- both orientations."""
+    out = []
+    for (p, q) in RATIOS:
+        k = 8 * (-(-2000 // q))                # multiple of 8 (three exact halvings), q*k >= 16000
+        for d in (8, -8):
+            lng, sht = p * k + d, q * k        # lng/sht = r + d/(q k), |d/(q k)| <= 5e-4
+            for (w, h) in ((lng, sht), (sht, lng)):
+                for n in (1, 2):
+                    out.append({"mregs": [], "mdw": w, "mdh": h, "embs": list(ORIGIN0),
+                                "ops": [{"op": "split", "p": p, "q": q, "n": n, "check_model": 1}]})
+    for (p, q) in RATIOS:
+        for a in range(4, 10):
+            for b in range(a, 10):
+                for n in (2, 3, 5):
+                    w, h = (32 * a, 32 * b) if rng.random() < 0.5 else (32 * b, 32 * a)
+                    out.append({"mregs": [], "mdw": w, "mdh": h, "embs": list(ORIGIN0),
+                                "ops": [{"op": "split", "p": p, "q": q, "n": n, "check_model": 1}]})
+    return out
+
+
 def has_refinable(c) -> bool:
     """some cell of the die is not covered by a blockage or a fixed rectangle"""
     cov = set()
@@ -79,7 +101,13 @@ def run(ctx: Ctx) -> int:
         k += 1
         ops = rng.choice(ops_for(rng, c, 30))
         cases.append(to_case(c, ops=ops))
+    nl = near_limit_cases(rng)
+    if tier == "quick":
+        rng.shuffle(nl)
+        nl = nl[:150]
+    cases += nl
     ctx.extra["descriptions"] = len(gen) + nrand
+    ctx.extra["near_limit_and_empty_dies"] = len(nl)
     decide(ctx, cases)
     ctx.extra["embeddings"] = ORIGIN0
     ctx.extra["aspect_ratio_limits"] = [f"{p}/{q}" for p, q in RATIOS]
